@@ -47,7 +47,8 @@ CHUNK = 8192  # io.TextIOWrapper reads the underlying file in chunks of this man
 
 # ----------------------------------------------------------------------------
 # vocabulary: per character family, strings for the places a LAS header can hold text.
-# "latin": U+00A1..U+00FF only (exist in latin-1 AND cp1252).  "cyr": Cyrillic.
+# "latin": U+00A0..U+00FF only (exist in latin-1 AND cp1252; U+00A0 only inside a field).  "win": characters
+# of cp1252 that latin-1 lacks.  "cyr": Cyrillic.
 # "sep": U+2028 / U+0085 strictly INSIDE a field (never at its edge: both are Unicode
 # white space, and a field is delimited by white space).  "astral": beyond the BMP
 # (surrogate pairs in utf-16).  No digits-comma-digits, no ':' and no '.' in any word.
@@ -81,7 +82,6 @@ FILE_CHANNELS = ["path-str-abs", "path-str-rel", "path-obj-abs", "path-obj-rel",
 FILE_CHANNELS_FEW = ["path-str-rel", "path-obj-abs", "fileobj"]
 EOLS = {"LF": "\n", "CRLF": "\r\n", "CR": "\r"}
 SUBDIR = "sub dir"
-SECKEY = {"V": "Version", "W": "Well", "C": "Curves", "P": "Parameter", "O": "Other"}
 
 
 def nonascii(s):
@@ -767,10 +767,10 @@ def matrix_specs(tier):
                     if data == "neg" and "C" not in secs:
                         continue
                     specs.append({"cs": cs, "secs": secs, "nrows": 4, "ncur": 3, "data": data, "v": len(secs) + 6})
-            for padn in (60, 120, 130, 260, 400):
+            for padn in (60, 130, 260):
                 for where in ("top", "mid"):
-                    specs.append({"cs": cs, "secs": full, "nrows": 200 if padn == 400 else 12, "ncur": 5, "data": "plain", "v": padn, "pad": [where, padn]})
-            for sh in range(0, 70, 3):
+                    specs.append({"cs": cs, "secs": full, "nrows": 120 if padn == 260 else 12, "ncur": 5, "data": "plain", "v": padn, "pad": [where, padn]})
+            for sh in range(0, 70, 7):
                 specs.append({"cs": cs, "secs": full, "nrows": 12, "ncur": 3, "data": "plain", "v": 7, "pad": ["mid", 126], "shift": sh})
     return specs
 
@@ -791,8 +791,8 @@ def matrix_tasks(tier):
             n_ascii += 1
             if tier == "quick" and n_ascii > 1:
                 continue
-        # quick: the option sets alternate over the layouts; thorough: every layout with every option set
-        for opts in ([osets[i % len(osets)]] if tier == "quick" else osets):
+        # quick: the option sets alternate over the layouts; thorough: two of the four per layout, rotating
+        for opts in ([osets[i % len(osets)]] if tier == "quick" else [osets[i % 4], osets[(i + 1 + i // 4 % 2) % 4]]):
             tasks.append({"kind": "matrix", "spec": spec, "opts": opts, "tier": tier})
     return tasks
 
@@ -809,17 +809,17 @@ def purity_tasks(tier, seed):
     tasks = []
     n = 0
     for k, spec in enumerate(tspecs):
-        if tier == "thorough" or k == 0:
+        if k == 0 or (tier == "thorough" and k < 7):
             seqs = singles + pairs
         else:
-            seqs = singles + rng.sample(pairs, 24)
+            seqs = singles + rng.sample(pairs, 24 if tier == "quick" else 60)
         for acts in seqs:
             cell = PURITY_CHANS[n % len(PURITY_CHANS)]
             opts = {"engine": "normal"} if n % 3 == 2 else {}
             n += 1
             tasks.append({"kind": "purity", "spec": spec, "opts": opts, "acts": list(acts), "cell": list(cell)})
     if tier == "thorough":
-        for _ in range(6000):
+        for _ in range(3000):
             spec = rng.choice(tspecs)
             acts = [rng.choice(ACTIONS) for _ in range(rng.choice((3, 3, 4)))]
             cell = rng.choice(PURITY_CHANS)
@@ -837,9 +837,9 @@ def build_run(tier, seed):
               "{utf-8 BOM sniffed; utf-8, utf-16, latin-1, cp1252 (+cp1251%s) with encoding=} x {LF, CRLF, CR(files)}; "
               "purity scenarios over an alphabet of %d actions" % (" utf-16-le/be utf-32 koi8_r cp850 iso8859_15" if tier == "thorough" else "", len(ACTIONS)),
               "texts: 6 character families x %s layouts; action sequences of length <= 2: %s" % (
-                  "5 + chunk alignments" if tier == "quick" else "~75",
+                  "5 + chunk alignments" if tier == "quick" else "~60",
                   "all %d on the text without ~V/~W/~P, %d singles + 24 sampled pairs on 3 more texts" % (NSEQ2, len(ACTIONS)) if tier == "quick"
-                  else "all %d on each of 13 texts, and 6000 sampled sequences of length 3-4" % NSEQ2))
+                  else "all %d on each of 7 texts, %d singles + 60 sampled pairs on 6 more, and 3000 sampled sequences of length 3-4" % (NSEQ2, len(ACTIONS))))
     top = tempfile.mkdtemp(prefix="c10_", dir=os.environ.get("VERIF_SCRATCH", "/var/tmp"))
     try:
         tasks = [{"kind": "fresh"}]
